@@ -116,8 +116,10 @@ package cronschedule
 //@        ==> errclass(result1) == 700 || (scheduled(jobConfig) && jobConfig.Spec.Schedule.Cron.Timezone == "" && errclass(result1) == 702)
 //@   ensures [C03] unscheduled-has-no-item: !scheduled(jobConfig) ==> result0 == nil && result1 == nil
 
+// C17 for the running scheduler: Bump parses with a parser built from the configuration as it is *now* (the one admission
+// reads), so an accepted schedule can only fail to be bumped when that configuration is unavailable or its default timezone is bad
 //@ func Schedule.Bump
-//@   tags C01, C03
+//@   tags C01, C03, C17
 //@   requires swf(s) && jobConfig != nil
 //@   modifies s.jobConfigs.pq.queue, arrays(*heap.Item), mapof(s.jobConfigs.pq.names), heap(heap.Item)
 //@   ensures [C01,C03] keeps-wf: swf(s)
@@ -129,5 +131,8 @@ package cronschedule
 //@   ensures [C01,C03] next-strictly-later: result1 == nil && !result0.IsZero() ==> scheduled(jobConfig) && ns(result0) > ns(fromTime)
 //@        && due(s, jcKey(jobConfig)) && dueAt(s, jcKey(jobConfig)) == result0.Unix()
 //@   ensures [C01] whole-second: result1 == nil ==> ns(result0) == result0.Unix() * 1000000000
+//@   ensures [C17] accepted-schedule-bumps-unless-config-unavailable: scheduled(jobConfig)
+//@        && cron.cronAccepted(jobConfig.Spec.Schedule.Cron, curCronKind()) && result1 != nil
+//@        ==> errclass(result1) == 700 || (jobConfig.Spec.Schedule.Cron.Timezone == "" && errclass(result1) == 702)
 //@   ensures [C01,C03] next-is-the-schedules-next: result1 == nil && scheduled(jobConfig) ==>
 //@        (exists e cron.Expression, tz *time.Location :: tz != nil && result0 == nextSpec(jobConfig, e, fromTime.In(tz)))
